@@ -465,7 +465,14 @@ let judge_reduced args forms =
   let cls = "m-" ^ op in
   if op = "sqr" then verdict ~cls [ "m"; "mul_vv"; "mul_rr" ] forms (all_same (exactly (V (hx (c15_mmul m a a)))))
   else if op = "dbl" then verdict ~cls [ "m"; "add_vv"; "add_rr" ] forms (all_same (exactly (V (hx (c15_madd m a a)))))
-  else if op.[0] = 'x' then verdict ~cls (own4 @ asg2) forms (all_same (exactly (P "DifferentRings")))
+  else if op.[0] = 'x' then begin
+    (* operands of two rings: the documented panic; a division inverts the divisor first, so a
+       non-invertible divisor may be reported instead - by every form alike *)
+    let first = (match forms with (_, f) :: _ -> f | [] -> P "none") in
+    let noninv = op = "xdiv" && (match c15_mdiv m a (red (z (List.nth args 3))) with Panic NonInvertible -> true | _ -> false) in
+    let ok g = g = first && (fr_ok (P "DifferentRings") g || (noninv && fr_ok (P "NonInvertible") g)) in
+    verdict ~cls (own4 @ asg2) forms (all_same { ok; txt = "p,DifferentRings" })
+  end
   else if op = "neg" then verdict ~cls [ "v"; "r" ] forms (all_same (exactly (V (hx (c15_mneg m a)))))
   else
     let b = red (z (List.nth args 3)) in
